@@ -155,6 +155,12 @@ impl Arena {
         let commit = self.commit.get();
         let offset = self.offset.get();
 
+        // `bytes` is arbitrary when it comes from `alloc_uninit_slice`: refuse what can never fit
+        // instead of letting `beg + bytes` (or the round-up in `alloc_raw_bump`) wrap around.
+        if bytes > self.capacity {
+            return Err(AllocError);
+        }
+
         let beg = (offset + alignment - 1) & !(alignment - 1);
         let end = beg + bytes;
 
@@ -235,7 +241,8 @@ impl Arena {
 
     #[allow(clippy::mut_from_ref)]
     pub fn alloc_uninit_slice<T>(&self, count: usize) -> &mut [MaybeUninit<T>] {
-        let bytes = mem::size_of::<T>() * count;
+        // An overflowing size can never fit: let `alloc_raw` refuse it like any oversize request.
+        let bytes = mem::size_of::<T>().checked_mul(count).unwrap_or(usize::MAX);
         let alignment = mem::align_of::<T>();
         let ptr = self.alloc_raw(bytes, alignment).unwrap();
         unsafe { slice::from_raw_parts_mut(ptr.cast().as_ptr(), count) }
